@@ -1,7 +1,7 @@
 (* C13 property theorems: statements only, each closed by [exact]. *)
 From Boltons Require Import Lib.Prelude Spec.C13_Spec Model.C13_Model
      Model.C13_Text Gen.C13_Gen Proofs.C13_Text
-     Check.C13_Check Proofs.C13_Bind Proofs.C13_Shape Proofs.C13_Sig Proofs.C13_Main Proofs.C13_Holds Proofs.C13_Stack Proofs.C13_Tie.
+     Check.C13_Check Proofs.C13_Bind Proofs.C13_Shape Proofs.C13_Sig Proofs.C13_Main Proofs.C13_Holds Proofs.C13_Stack Proofs.C13_Transfer Proofs.C13_Tie.
 
 (* wraps(f)(wrapper): the same signature (parameters, kinds, defaults on the same
    parameters, annotations, return annotation), __name__, __doc__, __module__,
@@ -132,6 +132,28 @@ Theorem C13_model_agrees_with_itself : forall f steps fwd calls,
   agree (model_case f steps fwd calls) = true.
 Proof. exact model_agrees. Qed.
 Print Assumptions C13_model_agrees_with_itself.
+
+(* TRANSFER.  For every well-formed case: if the implementation's observations agree
+   with the model ([agree], as computed on every case of every run) then they satisfy
+   the Spec predicate ([holds]).  "agree on a run" therefore transfers the theorems
+   about the model to what the implementation did on that run. *)
+Theorem C13_agree_implies_holds : forall k,
+  wf_func (k_f k) -> k_steps k <> [] -> steps_nonzero (k_steps k) ->
+  Forall (fun c => NoDup (keys (c_kw c))) (k_calls k) ->
+  (k_forward k = true -> forallb plain_step (k_steps k) = true) ->
+  agree k = true -> holds k = true.
+Proof. exact agree_implies_holds. Qed.
+Print Assumptions C13_agree_implies_holds.
+
+(* whatever injected/expected do, a function that is built has a well-formed
+   signature again, namely Spec.spec_wraps of the wrapped function's *)
+Theorem C13_result_wellformed : forall o gid f inj exp g,
+  wf_func f -> Forall (fun nd => fst nd <> 0) exp ->
+  update_wrapper_opt o gid f inj exp = Ok g ->
+  exists s, sig_of (b_func g) = Ok s /\ wf_params (sg_params s) = true /\
+            spec_wraps (func_sig f) inj exp = Ok s.
+Proof. exact result_wellformed. Qed.
+Print Assumptions C13_result_wellformed.
 
 (* ---- stacked decorators, and functions that already carry attributes ------------------------------ *)
 (* __wrapped__ of the result is the wrapped function whatever __dict__ that one
